@@ -353,6 +353,7 @@ fn c19_2a_consumer_spins_while_push_in_flight() {
 //@ obligation: C19.2b
 //@ property: C19
 //@ kind: K2
+//@ playback: yes
 //@ complete: yes
 //@ functions: mpsc_list_v1::Queue::push
 //@ statement: push post-state (white box): the new node is the head, its prev is the old head, the old head links to it, it carries the
